@@ -259,25 +259,48 @@ def classify_failed(desc):
 
 
 def harness_text_ids(unit):
-    """map harness fn name -> (assert ids, cover ids) found in the unit's spliced harness text."""
-    ids = {}
+    """map fn name -> (assert ids, cover ids) found in the unit's spliced harness text; ids inside helper functions of
+    the same module are attributed to every function that calls the helper (transitively)."""
+    from rsx import match_brace
+    own, calls = {}, {}
     for sp in unit.get('splices', []):
         if not sp.get('append'):
             continue
         text = _read_with_includes(os.path.join(unit['dir'], sp['append']))
         s = Src(sp['append'], text)
-        for mm in re.finditer(r'\bfn\s+(\w+)\s*\(', s.m):
-            name = mm.group(1)
+        spans = []
+        for mm in re.finditer(r'\bfn\s+(\w+)\s*(?:<[^>]*>)?\s*\(', s.m):
             try:
                 o = s.m.index('{', mm.end())
-                from rsx import match_brace
+                semi = s.m.find(';', mm.end())
+                if 0 <= semi < o:
+                    continue
                 e = match_brace(s.m, o)
             except ValueError:
                 continue
+            spans.append((mm.group(1), o, e))
+        names = {n for n, _, _ in spans}
+        for name, o, e in spans:
             body = text[o:e]
             covers = set(re.findall(r'cover!\([^;]*?"(C\d\d\.[\w.\-]+)"', body, re.S))
             allids = set(re.findall(r'"(C\d\d\.[\w.\-]+)', body))
-            ids[name] = (sorted(allids - covers), sorted(covers))
+            a0, c0 = own.get(name, (set(), set()))
+            own[name] = (a0 | (allids - covers), c0 | covers)
+            called = {n for n in names if n != name and re.search(r'\b' + re.escape(n) + r'\s*(?:::<[^>]*>)?\s*\(', s.m[o:e])}
+            calls[name] = calls.get(name, set()) | called
+    ids = {}
+    for name in own:
+        seen, stack = set(), [name]
+        a, c = set(), set()
+        while stack:
+            n = stack.pop()
+            if n in seen or n not in own:
+                continue
+            seen.add(n)
+            a |= own[n][0]
+            c |= own[n][1]
+            stack += list(calls.get(n, ()))
+        ids[name] = (sorted(a - c), sorted(c))
     return ids
 
 
